@@ -20,7 +20,7 @@ use smartcore::verif::bbd_clustering;
 use std::sync::atomic::{AtomicU64, Ordering};
 
 /// float widths the monitor instantiates (serde view needs `Serialize`)
-trait W: RealNumber + std::iter::Sum + serde::Serialize {}
+trait W: SNum + std::iter::Sum {}
 impl W for f32 {}
 impl W for f64 {}
 
@@ -817,6 +817,9 @@ fn fit_case_t<T: W>(c: &mut Case, kind: &str, scaled: bool) {
                 let p: Vec<f64> = fv(&p);
                 let okr = p.len() == q.r && p.iter().all(|v| *v >= 0.0 && *v < k as f64 && v.fract() == 0.0);
                 c.check("predict.labels-valid", okr, &sg, || format!("predict returned {} labels for {} rows: {:?}", p.len(), q.r, p));
+                if okr {
+                    sequence_checks(c, "predict", &sg, &model, &qm, &p, |m, qq| m.predict(qq));
+                }
                 if okr {
                     let lab: Vec<usize> = p.iter().map(|v| *v as usize).collect();
                     let nr = nearest_rel(&q, &st.cents, &lab, tn, dat.s, true);
